@@ -114,7 +114,7 @@ def sanitizer_summary(stderr):
     m = re.search(r'(ERROR: AddressSanitizer: [\w-]+|runtime error: [^\n]{0,120}|ERROR: ThreadSanitizer: [\w -]+|terminate called[^\n]*|Assertion [^\n]*failed)', stderr)
     if not m:
         return None
-    kind = m.group(1)
+    kind = re.sub(r'0x[0-9a-fA-F]+', '0xADDR', m.group(1))      # addresses differ from run to run: keep finding keys stable
     frames = re.findall(r'#\d+ 0x[0-9a-f]+ in ([^\s(]+)[^\n]*?(/repo/src/[^\s:]+|/repo/contrib/[^\s:]+)?', stderr[m.start():m.start() + 6000])
     fr = [f for f, _ in frames if not f.startswith(('__interceptor', '__asan', '__ubsan', '__sanitizer', 'operator new', 'operator delete', 'malloc', 'free'))][:3]
     return kind + ' @ ' + ' < '.join(fr)
